@@ -71,8 +71,9 @@ class Ob:
             if m is not None:
                 for d in m.decls():
                     nm = d.name()
-                    if nm in ("x0", "xend", "h0", "max_step", "first_step") or nm.startswith(("lh_", "te")) or (nm[0] == "x" and nm[1:].isdigit()):
-                        ex[nm] = str(m[d])[:60]
+                    if nm in ("x0", "xend", "h0", "max_step", "first_step") or nm.startswith(("lh_", "te")) or (nm[0] in "xh" and nm[1:].isdigit()) or nm == "t":
+                        v = m[d]
+                        ex[nm] = f"{v.numerator_as_long()}/{v.denominator_as_long()}" if z3.is_rational_value(v) else str(v)[:200]
             self.failed.append((desc, p.label(), ex, p.script() if hasattr(p, "script") else path_script(p)))
             return False
         self.unknown.append(desc + " [path " + p.label() + "]")
@@ -229,7 +230,12 @@ def c03_times(method, backward=False, with_max_step=True):
                 if not p.rec.callbacks and p.rec.ode_calls:
                     ob.check(p, zabs(p.after["h"].t) <= qv(Fraction(95, 100)) * zabs(hh.t) * (1 + qv(8 * EPS)),
                              f"{method}: a rejected trial does not shrink the step by at least 5%")
-                # close to the end the run must finish in this iteration
+                # the step after an accepted step that follows a rejection is not longer than that step (DOPRI family's
+                # "prevent oscillations" rule; 1% more only when it is stretched to land on xend) -- in BOTH directions
+                rj = p.head.get("reject") if isinstance(p.head, dict) else None
+                if p.rec.callbacks and rj is not None and z3.is_expr(rj) and z3.is_bool(rj):
+                    ob.check(p, z3.Implies(rj, zabs(p.after["h"].t) <= qv(Fraction(101, 100)) * zabs(hh.t) * (1 + qv(8 * EPS))),
+                             f"{method}: after a rejection the next accepted step is followed by a LONGER step (the anti-oscillation rule is direction dependent)")
             if len(ob.samples) < 3:
                 ob.samples.append({"path": p.label(), "rhs_calls": len(p.rec.ode_calls), "callbacks": len(p.rec.callbacks),
                                    "outcome": st or p.outcome[1], "symbolic": "x0,xend,max_step,lh_x,lh_h,lh_facold,..."})
